@@ -256,8 +256,26 @@ def load_findings() -> list[dict]:
 
 # ---- main flow --------------------------------------------------------------------------
 
+def tree_identity(repo: str) -> dict:
+    """Which tree this run examined: path, HEAD, and a digest of the uncommitted difference to HEAD (so
+    an evidence file produced against a modified tree can be told from one for the unchanged tree)."""
+    def g(*a):
+        try:
+            return subprocess.run(['git', '-C', repo, *a], capture_output=True, text=True, timeout=60).stdout
+        except Exception:  # noqa: BLE001
+            return ''
+    diff = g('diff', 'HEAD', '--', 'src')
+    return {
+        'repo': repo,
+        'head': g('rev-parse', 'HEAD').strip(),
+        'uncommitted_src_diff_blake2b': hashlib.blake2b(diff.encode(), digest_size=8).hexdigest() if diff else None,
+        'uncommitted_src_files': [l[3:] for l in g('status', '--porcelain', '--', 'src').splitlines()][:20],
+    }
+
+
 def write_evidence(mod, ctx: Ctx, coverage: dict, nviol: int) -> None:
     os.makedirs(os.path.join(VERIF, 'evidence'), exist_ok=True)
+    coverage = dict(coverage, tree=tree_identity(ctx.repo))
     ev = {
         'property_id': ctx.prop,
         'tier': ctx.tier,
